@@ -131,7 +131,7 @@ class C14(Check):
         "relations are observed over the suffix objects only (prefix survivors may keep their own relations)",
     ]
     budget = {
-        "quick": dict(examples=120, shards=16, seconds=75),
+        "quick": dict(examples=320, shards=16, seconds=120),
         "thorough": dict(examples=8000, shards=16, seconds=1200),
     }
 
